@@ -81,7 +81,7 @@ def scenarios(tier, pid):
            "--prev", "10:info,12:plain", "--nested", 2, "--signals", "10,12", "--preempt", 2)
     # generated programs (lib/genprog.py): the monitor is program-independent
     import genprog
-    for seed in range(120 if tier == "thorough" else 8):
+    for seed in range(60 if tier == "thorough" else 8):
         name, args = genprog.registry_program(seed)
         if pid in ("C01", "C02", "C03", "C05", "C18") or (pid == "C04" and "--prev" in args):
             S.append((name, args))
